@@ -30,7 +30,7 @@ func (c12) Property() string { return "C12" }
 func (c12) Classes() []sim.Class {
 	var cs []sim.Class
 	for _, e := range []string{"interpreter", "compiler"} {
-		cs = append(cs, sim.Class{Name: "swarm", Engine: e, Quick: 700, Thorough: 40000, RunTimeoutSec: 120})
+		cs = append(cs, sim.Class{Name: "swarm", Engine: e, Quick: 1400, Thorough: 40000, RunTimeoutSec: 120})
 		cs = append(cs, sim.Class{Name: "listener-sets-over-caches", Engine: e, Quick: 800, Thorough: 8000, RunTimeoutSec: 120})
 		cs = append(cs, sim.Class{Name: "snapshot-restore", Engine: e, Quick: 100, Thorough: 4000, RunTimeoutSec: 120})
 	}
@@ -566,6 +566,9 @@ func (c12) Run(t *tape.Tape, cfg sim.Config) (res sim.Result) {
 		switch d.Listen {
 		case "set":
 			d.ListenSet = baseSet
+			if t.Chance(1, 4) {
+				d.ListenSet = nil // a factory is there and declines every function of this module
+			}
 		case "set+alias":
 			d.ListenSet = append([]int(nil), baseSet...)
 			for _, j := range baseSet {
